@@ -51,6 +51,10 @@ fn export_both(log: &Log, tag: &str) -> Result<(DecodedLog, DecodedLog), String>
     let dir = scratch_dir();
     let pj = dir.join(format!("{tag}.json"));
     let pc = dir.join(format!("{tag}.cbor"));
+    // the files already exist and are longer than any export: an export must replace them
+    let junk = vec![b'#'; 6_000];
+    let _ = std::fs::write(&pj, &junk);
+    let _ = std::fs::write(&pc, &junk);
     log.to_json(&pj).map_err(|e| format!("to_json failed without any fault: {e:#}"))?;
     log.to_cbor(&pc).map_err(|e| format!("to_cbor failed without any fault: {e:#}"))?;
     let bj = std::fs::read(&pj).map_err(|e| e.to_string())?;
@@ -405,86 +409,67 @@ pub struct RonCase {
 
 pub struct ConfigExport;
 
-/// Pre-order token sequence a serialisation must show for `nodes`.
-fn expected_tokens(nodes: &[Node], out: &mut Vec<String>) {
-    fn cond(c: &Cond, out: &mut Vec<String>) {
+/// What a serialisation must show for `nodes`, using only names the harness owns (so that
+/// renaming a mahf struct or field is not reported): the pre-order sequence of probe leaves and
+/// scripted conditions with their tree depth, and the parameter values of the real conditions.
+fn expected_tokens(nodes: &[Node], depth: usize, out: &mut Vec<(String, usize)>, params: &mut Vec<f64>) {
+    fn cond(c: &Cond, depth: usize, out: &mut Vec<(String, usize)>, params: &mut Vec<f64>) {
         match c {
-            Cond::Scripted { id, .. } => out.push(format!("Scripted:{id}")),
-            Cond::LessThan { n, .. } => {
-                out.push("Spy".into());
-                out.push(format!("LessThanN:{n}"));
-            }
-            Cond::EveryN { n, .. } => {
-                out.push("Spy".into());
-                out.push(format!("EveryN:{n}"));
-            }
-            Cond::ChangeDelta { threshold, .. } => {
-                out.push("Spy".into());
-                out.push("ChangeOf".into());
-                out.push(format!("DeltaEqChecker:{threshold}"));
-            }
-            Cond::ChangeEq { .. } => {
-                out.push("Spy".into());
-                out.push("ChangeOf".into());
-                out.push("PartialEqChecker".into());
-            }
-            Cond::Optimum { eps, .. } => {
-                out.push("Spy".into());
-                out.push(format!("OptimumReached:{eps:?}"));
-            }
-            Cond::And { ops, .. } => {
-                out.push("Spy".into());
-                out.push("And".into());
-                ops.iter().for_each(|o| cond(o, out));
-            }
-            Cond::Or { ops, .. } => {
-                out.push("Spy".into());
-                out.push("Or".into());
-                ops.iter().for_each(|o| cond(o, out));
-            }
-            Cond::Not { inner, .. } => {
-                out.push("Spy".into());
-                out.push("Not".into());
-                cond(inner, out);
-            }
+            Cond::Scripted { id, .. } => out.push((format!("Scripted:{id}"), depth)),
+            Cond::LessThan { n, .. } | Cond::EveryN { n, .. } => params.push(*n as f64),
+            Cond::ChangeDelta { threshold, .. } => params.push(*threshold as f64),
+            Cond::ChangeEq { .. } => {}
+            Cond::Optimum { eps, .. } => params.push(*eps),
+            Cond::And { ops, .. } | Cond::Or { ops, .. } => ops.iter().for_each(|o| cond(o, depth + 1, out, params)),
+            Cond::Not { inner, .. } => cond(inner, depth + 1, out, params),
         }
     }
     for n in nodes {
         match n {
-            Node::Leaf { id, .. } => out.push(format!("ProbeLeaf:{id}")),
-            Node::Logger { .. } => out.push("Logger".into()),
+            Node::Leaf { id, .. } => out.push((format!("ProbeLeaf:{id}"), depth)),
+            Node::Logger { .. } => {}
             Node::While { cond: c, body, .. } => {
-                out.push("Loop".into());
-                cond(c, out);
-                expected_tokens(body, out);
+                cond(c, depth + 1, out, params);
+                expected_tokens(body, depth + 1, out, params);
             }
             Node::If { cond: c, then, els, .. } => {
-                out.push("Branch".into());
-                cond(c, out);
-                expected_tokens(then, out);
-                match els {
-                    Some(e) => {
-                        out.push("else:Some".into());
-                        expected_tokens(e, out)
-                    }
-                    None => out.push("else:None".into()),
+                cond(c, depth + 1, out, params);
+                expected_tokens(then, depth + 1, out, params);
+                if let Some(e) = els {
+                    expected_tokens(e, depth + 1, out, params);
                 }
             }
-            Node::Scope { body, .. } => {
-                out.push("Scope".into());
-                expected_tokens(body, out);
-            }
+            Node::Scope { body, .. } => expected_tokens(body, depth + 1, out, params),
         }
     }
 }
 
-/// Token sequence actually present in a RON text with struct names: component / condition
-/// names in order of appearance, each with the parameter value that follows its field name.
-fn ron_tokens(text: &str) -> Vec<String> {
-    // split into words (identifiers and numeric literals), skipping string literals
-    let mut words: Vec<String> = Vec::new();
-    let mut cur = String::new();
+/// Harness-owned tokens of a RON text in order of appearance, each with its bracket depth.
+fn ron_tokens(text: &str) -> Vec<(String, usize)> {
+    let mut out = Vec::new();
+    let mut depth = 0usize;
     let mut in_str = false;
+    let mut cur = String::new();
+    let mut pending: Option<(&'static str, usize)> = None;
+    let mut want_id = false;
+    let mut flush = |cur: &mut String, depth: usize, out: &mut Vec<(String, usize)>, pending: &mut Option<(&'static str, usize)>, want_id: &mut bool| {
+        if cur.is_empty() {
+            return;
+        }
+        let w = std::mem::take(cur);
+        if w == "ProbeLeaf" {
+            *pending = Some(("ProbeLeaf", depth));
+        } else if w == "Scripted" {
+            *pending = Some(("Scripted", depth));
+        } else if w == "id" && pending.is_some() {
+            *want_id = true;
+        } else if *want_id {
+            if let Some((name, d)) = pending.take() {
+                out.push((format!("{name}:{w}"), d));
+            }
+            *want_id = false;
+        }
+    };
     for ch in text.chars() {
         if in_str {
             if ch == '"' {
@@ -492,40 +477,22 @@ fn ron_tokens(text: &str) -> Vec<String> {
             }
             continue;
         }
-        if ch == '"' {
-            in_str = true;
-            if !cur.is_empty() {
-                words.push(std::mem::take(&mut cur));
+        match ch {
+            '"' => {
+                flush(&mut cur, depth, &mut out, &mut pending, &mut want_id);
+                in_str = true;
             }
-            continue;
+            '(' | '[' | '{' => {
+                flush(&mut cur, depth, &mut out, &mut pending, &mut want_id);
+                depth += 1;
+            }
+            ')' | ']' | '}' => {
+                flush(&mut cur, depth, &mut out, &mut pending, &mut want_id);
+                depth = depth.saturating_sub(1);
+            }
+            c if c.is_alphanumeric() || c == '_' || c == '.' || c == '-' => cur.push(c),
+            _ => flush(&mut cur, depth, &mut out, &mut pending, &mut want_id),
         }
-        if ch.is_alphanumeric() || ch == '_' || ch == '.' || ch == '-' {
-            cur.push(ch);
-        } else if !cur.is_empty() {
-            words.push(std::mem::take(&mut cur));
-        }
-    }
-    if !cur.is_empty() {
-        words.push(cur);
-    }
-    let mut out = Vec::new();
-    let param = |words: &[String], from: usize, key: &str| -> String {
-        words[from..].iter().take(4).position(|w| w == key).and_then(|p| words.get(from + p + 1)).cloned().unwrap_or_default()
-    };
-    let mut i = 0;
-    while i < words.len() {
-        match words[i].as_str() {
-            "ProbeLeaf" => out.push(format!("ProbeLeaf:{}", param(&words, i + 1, "id"))),
-            "Scripted" => out.push(format!("Scripted:{}", param(&words, i + 1, "id"))),
-            "LessThanN" => out.push(format!("LessThanN:{}", param(&words, i + 1, "n"))),
-            "EveryN" => out.push(format!("EveryN:{}", param(&words, i + 1, "n"))),
-            "DeltaEqChecker" => out.push(format!("DeltaEqChecker:{}", param(&words, i + 1, "threshold"))),
-            "OptimumReached" => out.push(format!("OptimumReached:{}", param(&words, i + 1, "epsilon"))),
-            "else_body" => out.push(format!("else:{}", words.get(i + 1).cloned().unwrap_or_default())),
-            w @ ("Logger" | "Loop" | "Branch" | "Scope" | "Spy" | "ChangeOf" | "PartialEqChecker" | "And" | "Or" | "Not") => out.push(w.to_string()),
-            _ => {}
-        }
-        i += 1;
     }
     out
 }
@@ -541,6 +508,10 @@ fn to_ron_text(p: &Program, clone: bool) -> Result<String, String> {
     Ok(t)
 }
 
+fn first_len(a: &str, b: &str) -> usize {
+    a.len().max(b.len())
+}
+
 /// A structurally or parametrically different variant of `p`.
 fn mutate_program(p: &Program, g: &mut crate::rng::Gen) -> Option<Program> {
     let cands = shrink_nodes(&p.root);
@@ -549,10 +520,10 @@ fn mutate_program(p: &Program, g: &mut crate::rng::Gen) -> Option<Program> {
     }
     let root = cands[g.below(cands.len())].clone();
     let q = Program { root, ..p.clone() };
-    let (mut a, mut b) = (Vec::new(), Vec::new());
-    expected_tokens(&p.root, &mut a);
-    expected_tokens(&q.root, &mut b);
-    if a == b { None } else { Some(q) }
+    let (mut a, mut b, mut pa, mut pb) = (Vec::new(), Vec::new(), Vec::new(), Vec::new());
+    expected_tokens(&p.root, 0, &mut a, &mut pa);
+    expected_tokens(&q.root, 0, &mut b, &mut pb);
+    if a == b && pa == pb { None } else { Some(q) }
 }
 
 impl World for ConfigExport {
@@ -582,9 +553,10 @@ impl World for ConfigExport {
         out.steps = 1;
         let p = &case.program;
         let mut exp = Vec::new();
-        expected_tokens(&p.root, &mut exp);
+        let mut params = Vec::new();
+        expected_tokens(&p.root, 0, &mut exp, &mut params);
         let mut fp = Fp::new();
-        fp.str(&format!("{exp:?}"));
+        fp.str(&format!("{exp:?}{params:?}"));
         out.fingerprints.push(fp.0);
         let v = (|| {
             let text = match to_ron_text(p, false) {
@@ -595,8 +567,23 @@ impl World for ConfigExport {
                 }
             };
             let toks = ron_tokens(&text);
-            if toks != exp {
-                return Some(Violation::new("config-export-structure-mismatch", format!("serialisation shows {toks:?}, the configuration is {exp:?}")));
+            let names = |v: &[(String, usize)]| v.iter().map(|(n, _)| n.clone()).collect::<Vec<_>>();
+            if names(&toks) != names(&exp) {
+                return Some(Violation::new("config-export-structure-mismatch", format!("serialisation shows the leaves/conditions {:?}, the configuration has {:?}", names(&toks), names(&exp))));
+            }
+            // nesting: deeper in the tree means deeper in the text
+            for i in 0..exp.len() {
+                for j in 0..exp.len() {
+                    if exp[i].1 < exp[j].1 && exp[i].0.starts_with("ProbeLeaf") && exp[j].0.starts_with("ProbeLeaf") && toks[i].1 >= toks[j].1 && exp[i].1 == 0 {
+                        return Some(Violation::new("config-export-nesting-mismatch", format!("{} (tree depth {}) is serialised at bracket depth {}, {} (tree depth {}) at {}", exp[i].0, exp[i].1, toks[i].1, exp[j].0, exp[j].1, toks[j].1)));
+                    }
+                }
+            }
+            let nums = numbers_in(&text);
+            for v in &params {
+                if !nums.iter().any(|x| x.to_bits() == v.to_bits()) {
+                    return Some(Violation::new("config-export-misses-parameter", format!("condition parameter {v} does not occur in the serialised configuration")));
+                }
             }
             match to_ron_text(p, true) {
                 Ok(t2) if t2 == text => {}
@@ -609,6 +596,20 @@ impl World for ConfigExport {
                 if let Ok(t3) = to_ron_text(&q, false) {
                     if t3 == text {
                         return Some(Violation::new("config-export-not-injective", "two configurations that differ in structure or a parameter serialise identically".to_string()));
+                    }
+                    // exporting over an existing (longer or shorter) file leaves exactly the new content
+                    let sh = Shared::new(None, false);
+                    let path = scratch_dir().join("overwrite.ron");
+                    let (first, second, expect) = if t3.len() < text.len() { (p, &q, &t3) } else { (&q, p, &text) };
+                    let r1 = build_config(first, &sh).to_ron(&path);
+                    let r2 = build_config(second, &sh).to_ron(&path);
+                    let got = std::fs::read_to_string(&path).unwrap_or_default();
+                    let _ = std::fs::remove_file(&path);
+                    if r1.is_ok() && r2.is_ok() {
+                        bump(&mut out.counters, "probe:export over an existing longer file", (t3.len() != text.len()) as u64);
+                        if &got != expect {
+                            return Some(Violation::new("config-export-overwrite-leaves-old-content", format!("to_ron over an existing file of {} bytes left {} bytes, a fresh export has {}", first_len(&text, &t3), got.len(), expect.len())));
+                        }
                     }
                 }
             }
@@ -687,6 +688,8 @@ impl World for TemplateExport {
         let mut kinds = SHIPPED.to_vec();
         kinds.push(Kind::GaArchive);
         kinds.push(Kind::EsArchive);
+        kinds.push(Kind::DeVariants);
+        kinds.push(Kind::GaVariants);
         let kind = *g.pick(&kinds);
         gen_case(&mut g, kind, &GenOpts { penalty: false, max_iters: 50, evaluations_term: true, log: false })
     }
@@ -711,6 +714,12 @@ impl World for TemplateExport {
             };
             let nums = numbers_in(&text);
             for (k, v) in &case.params {
+                if matches!(case.kind, Kind::DeVariants | Kind::GaVariants) {
+                    break; // which parameters are used depends on the operators the assembly selected
+                }
+                if k.ends_with("_kind") || k == "insert_both" || k == "crossover_points" {
+                    continue; // harness-side selector of the assembly, not a component parameter
+                }
                 if !nums.iter().any(|x| x.to_bits() == v.to_bits() || (*x - *v).abs() <= 1e-12 * v.abs()) {
                     return Some(Violation::new(format!("template-export-misses-parameter template={tname} parameter={k}"), format!("{tname}: parameter {k} = {v} does not occur in the serialised configuration")));
                 }
@@ -721,14 +730,12 @@ impl World for TemplateExport {
             if !nums.contains(&n) {
                 return Some(Violation::new(format!("template-export-misses-parameter template={tname} parameter=termination"), format!("{tname}: the termination bound {n} does not occur in the serialised configuration")));
             }
-            for needle in ["Loop", "Logger", "PopulationEvaluator", "LessThanN"] {
-                if !text.contains(needle) {
-                    return Some(Violation::new(format!("template-export-misses-component template={tname}"), format!("{tname}: {needle} does not occur in the serialised configuration")));
-                }
-            }
             match template_ron(case, true) {
                 Ok(t2) if t2 == text => {}
                 _ => return Some(Violation::new(format!("template-export-clone-differs template={tname}"), format!("{tname}: a clone serialises differently"))),
+            }
+            if matches!(case.kind, Kind::DeVariants | Kind::GaVariants) {
+                return None; // not every drawn parameter is used by the operators the assembly selected
             }
             // a configuration with one parameter changed serialises differently
             let mut g = crate::rng::Gen::new(fp.0);
@@ -764,7 +771,7 @@ impl World for TemplateExport {
 
 pub fn run(tier: Tier, seed: u64, known: &KnownFindings) -> CheckReport {
     let mk = |batch: &'static str, runs: u64| BatchConfig { check_id: "C15", batch, base_seed: seed, tier, runs, threads: threads(), known, samples: 1 };
-    let b1 = run_batch(&LogContent, &mk("log-content", tier.pick(150_000, 3_000_000)));
+    let b1 = run_batch(&LogContent, &mk("log-content", tier.pick(100_000, 2_000_000)));
     let b2 = run_batch(&ExportFaults, &mk("export-faults", tier.pick(5_000, 120_000)));
     let b3 = run_batch(&DevFull, &mk("dev-full", tier.pick(200, 3_000)));
     let b4 = run_batch(&ConfigExport, &mk("config-export-trees", tier.pick(40_000, 600_000)));
